@@ -113,6 +113,10 @@ def run(ctx):
                   any(c[0] == "call" and re.search(r"Iterator::(find|position)$", c[1]) and sel_ok and
                       any(z[0] == "closure" and z[1] == sel_ok for z in walk(c)) for c in walk(a[1]))
                   for (a, t) in fs)
+        if not dom:
+            # the same scan as an explicit loop: `for (i, item) in queue.iter().enumerate() { if item.should_transfer_now(..) { found = Some(i);
+            # break } } … found?` - the hand-out is only reached through the `true` edge of should_transfer_now
+            dom = any(a[0] == "true" and t and any(c[0] == "call" and c[1].endswith("FileDesc::should_transfer_now") for c in walk(a[1])) for (a, t) in fs)
         key = "get_next_file_transfer returns Some"
         if dom:
             r3.ok(key, "file chosen by find(|f| f.should_transfer_now(..))", loc(g.sp))
